@@ -138,6 +138,59 @@ def _hasattr(it, a, kw, node):
     raise AnalysisError(f"{it.where(node)}: hasattr on {v!r}")
 
 
+def _ordered_dict(it, a, kw, node):
+    if a or kw:
+        raise AnalysisError(f"{it.where(node)}: OrderedDict with initial contents")
+    return {}
+
+
+def _lock(it, a, kw, node):
+    return _I().LockObj()
+
+
+def _lru_cache(it, a, kw, node):
+    I = _I()
+    if len(a) == 1 and not kw and isinstance(a[0], (I.FuncRef, I.Closure, I.BoundMethod)):
+        return a[0]                   # @lru_cache without parentheses / lru_cache(f)
+    return I.IdentityDecorator()      # lru_cache(maxsize=…, typed=…)
+
+
+def _iter(it, a, kw, node):
+    I = _I()
+    x = a[0]
+    if isinstance(x, dict) and id(x) in it.world.__dict__.get("shared_objs", {}):
+        return Term("dict_iter", (it.shared_name(x),), "any")
+    if isinstance(x, (list, tuple, I._ConcreteIter, range, bytes, dict)):
+        return I._ConcreteIter(list(x))
+    raise AnalysisError(f"{it.where(node)}: iter() of {x!r}")
+
+
+def _next(it, a, kw, node):
+    I = _I()
+    x = a[0]
+    if isinstance(x, Term) and x.op == "dict_iter":
+        return Term("dict_first", x.args, "any")
+    if isinstance(x, I._ConcreteIter):
+        if not x:
+            if len(a) > 1:
+                return a[1]
+            it.raise_exc("StopIteration", "", node)
+        return x.pop(0)
+    raise AnalysisError(f"{it.where(node)}: next() of {x!r}")
+
+
+def _getattr(it, a, kw, node):
+    if len(a) not in (2, 3) or not isinstance(a[1], str):
+        raise AnalysisError(f"{it.where(node)}: getattr with a non-constant attribute name")
+    if len(a) == 3:
+        try:
+            if not it.truth(_hasattr(it, a[:2], {}, node), node):
+                return a[2]
+        except AnalysisError:
+            pass
+    return it.getattr(a[0], a[1], node)
+
+
 def _int(it, a, kw, node):
     I = _I()
     if not a:
@@ -159,6 +212,8 @@ def _int(it, a, kw, node):
             return Term("b2i", (v,), "int")
         if v.sort == "float":
             return Term("trunc", (v,), "int")
+        if v.sort == "any" and it.facts.get(Term("isinstance", (v, "int"), "bool")) is True:
+            return v                  # the path has established that it is an int: int(v) has v's value
         if v.sort in ("field", "any"):
             return Term("int", (v,), "int")
         raise AnalysisError(f"{it.where(node)}: int() of {v!r}")
@@ -449,6 +504,8 @@ def _hmac_new(it, a, kw, node):
     fn = a[2] if len(a) > 2 else kw.get("digestmod")
     if fn is None:
         raise AnalysisError(f"{it.where(node)}: hmac.new without digestmod")
+    if msg is None:
+        msg = b""
     return I.HashObj(fn, msg, key=key)
 
 
@@ -553,7 +610,7 @@ def _reduce(it, a, kw, node):
 _NOINIT = object()
 
 _TABLE = {
-    "len": _len, "isinstance": _isinstance, "type": _type, "hasattr": _hasattr, "int": _int,
+    "len": _len, "isinstance": _isinstance, "type": _type, "hasattr": _hasattr, "int": _int, "getattr": _getattr, "iter": _iter, "next": _next,
     "bool": _bool, "range": _range, "zip": _zip, "enumerate": _enumerate, "reversed": _reversed,
     "list": _list, "tuple": _tuple, "sum": _sum, "all": _all, "any": _any, "max": _max, "min": _min,
     "pow": _pow, "bytes": _bytes, "bytearray": _bytearray, "set": _set, "ord": _ord, "repr": _repr,
@@ -562,6 +619,8 @@ _TABLE = {
     "math.ceil": _ceil, "math.log2": _log2, "hmac.new": _hmac_new,
     "int.from_bytes": _from_bytes, "map": _map, "functools.reduce": _reduce, "sorted": _sorted,
     "importlib.metadata.version": _version,
+    "collections.OrderedDict": _ordered_dict, "threading.Lock": _lock, "threading.RLock": _lock,
+    "functools.lru_cache": _lru_cache, "functools.cache": _lru_cache,
 }
 
 
